@@ -154,9 +154,10 @@ def t_pair(pair, D, N, order, seed):
     elif pair == "ns_vorticity":
         s = S.NavierStokesVorticity(D, L, N, dt, diffusivity=nu, drag=-0.2, vorticity_convection_scale=b, **kw)
         g = G.GeneralVorticityConvectionStepper(D, L, N, dt, linear_coefficients=(-0.2 / D, 0.0, nu), vorticity_convection_scale=b, **kw)
-    elif pair == "kolmogorov_vorticity":
-        s = S.KolmogorovFlowVorticity(D, L, N, dt, diffusivity=nu, drag=-0.2, convection_scale=b, injection_mode=2, injection_scale=0.7, **kw)
-        g = G.GeneralVorticityConvectionStepper(D, L, N, dt, linear_coefficients=(-0.2 / D, 0.0, nu), vorticity_convection_scale=b, injection_mode=2, injection_scale=0.7, **kw)
+    elif pair in ("kolmogorov_vorticity", "kolmogorov_vorticity_neg"):
+        ga = 0.7 if pair == "kolmogorov_vorticity" else -0.45
+        s = S.KolmogorovFlowVorticity(D, L, N, dt, diffusivity=nu, drag=-0.2, convection_scale=b, injection_mode=2, injection_scale=ga, **kw)
+        g = G.GeneralVorticityConvectionStepper(D, L, N, dt, linear_coefficients=(-0.2 / D, 0.0, nu), vorticity_convection_scale=b, injection_mode=2, injection_scale=ga, **kw)
     else:
         raise KeyError(pair)
     if s.num_channels != g.num_channels:
@@ -180,21 +181,21 @@ def t_normalized(family, D, N, order, seed, s=1.0, t=1.0):
     a = tuple(aj * s**j / t for j, aj in enumerate(a))
     al = U.normalize_coefficients(a, domain_extent=L, dt=dt)
     ga = U.reduce_normalized_coefficients_to_difficulty(al, num_spatial_dims=D, num_points=N)
-    M = 1.0
+    M = (2.5, 0.4, 1.7)[seed % 3] if (s, t) == (1.0, 1.0) else 1.0          # maximum_absolute; the documented delta_1 = beta_1 M N D, delta_2 = beta_2 M N^2 D
     if family == "linear":
         gen, nor, dif = (G.GeneralLinearStepper(D, L, N, dt, linear_coefficients=a), G.NormalizedLinearStepper(D, N, normalized_linear_coefficients=al),
                          G.DifficultyLinearStepper(D, N, linear_difficulties=ga))
     elif family == "convection":
         b = 1.4 * s / t
         be = U.normalize_convection_scale(b, domain_extent=L, dt=dt)
-        de = U.reduce_normalized_convection_scale_to_difficulty(be, num_spatial_dims=D, num_points=N, maximum_absolute=M)
+        de = be * M * N * D           # documented formula, not the library's own reduce function (an inverse pair can be wrong consistently)
         gen = G.GeneralConvectionStepper(D, L, N, dt, linear_coefficients=a, convection_scale=b, order=order)
         nor = G.NormalizedConvectionStepper(D, N, normalized_linear_coefficients=al, normalized_convection_scale=be, order=order)
         dif = G.DifficultyConvectionStepper(D, N, linear_difficulties=ga, convection_difficulty=de, maximum_absolute=M, order=order)
     elif family == "gradient_norm":
         b = 0.9 * s * s / t
         be = U.normalize_gradient_norm_scale(b, domain_extent=L, dt=dt)
-        de = U.reduce_normalized_gradient_norm_scale_to_difficulty(be, num_spatial_dims=D, num_points=N, maximum_absolute=M)
+        de = be * M * N**2 * D
         gen = G.GeneralGradientNormStepper(D, L, N, dt, linear_coefficients=a, gradient_norm_scale=b, order=order)
         nor = G.NormalizedGradientNormStepper(D, N, normalized_linear_coefficients=al, normalized_gradient_norm_scale=be, order=order)
         dif = G.DifficultyGradientNormStepper(D, N, linear_difficulties=ga, gradient_norm_difficulty=de, maximum_absolute=M, order=order)
@@ -207,7 +208,7 @@ def t_normalized(family, D, N, order, seed, s=1.0, t=1.0):
     elif family == "nonlinear":
         b = (0.4 / t, -0.8 * s / t, 0.5 * s * s / t)
         bn = (b[0] * dt, U.normalize_convection_scale(b[1], domain_extent=L, dt=dt), U.normalize_gradient_norm_scale(b[2], domain_extent=L, dt=dt))
-        bd = U.reduce_normalized_nonlinear_scales_to_difficulty(bn, num_spatial_dims=D, num_points=N, maximum_absolute=M)
+        bd = (bn[0], bn[1] * M * N * D, bn[2] * M * N**2 * D)
         gen = G.GeneralNonlinearStepper(D, L, N, dt, linear_coefficients=a, nonlinear_coefficients=b, order=order)
         nor = G.NormalizedNonlinearStepper(D, N, normalized_linear_coefficients=al, normalized_nonlinear_coefficients=bn, order=order)
         dif = G.DifficultyNonlinearStepper(D, N, linear_difficulties=ga, nonlinear_difficulties=bd, maximum_absolute=M, order=order)
@@ -274,7 +275,7 @@ def witness(ctx):
             for order in ((2,) if not deep else (1, 2, 3, 4)):
                 ctx.check("pair", dict(pair=p, D=D, N=N, order=order, seed=ctx.seed))
         if D == 2:
-            for p in ("ns_vorticity", "kolmogorov_vorticity"):
+            for p in ("ns_vorticity", "kolmogorov_vorticity", "kolmogorov_vorticity_neg"):
                 for order in ((2,) if not deep else (1, 2, 3, 4)):
                     ctx.check("pair", dict(pair=p, D=D, N=N + 1, order=order, seed=ctx.seed))
         for fam in ("linear", "convection", "gradient_norm", "polynomial", "nonlinear"):
